@@ -237,15 +237,18 @@ func (fs *FS) rename(oldname, newname string) error {
 		_ = hackpadfs.Remove(newMount, copyPath)
 		return err
 	}
-	if replacing {
-		if err := hackpadfs.Rename(newMount, copyPath, newSubPath); err != nil {
+	if copyInfo, err := hackpadfs.Stat(newMount, copyPath); err == nil && copyInfo.Mode() != oldInfo.Mode() {
+		// a renamed file keeps its own mode (creating a file does not apply every bit, and an overwritten file keeps its old
+		// mode). Done before the copy takes the destination's place: if the mode cannot be set, nothing has changed yet.
+		if err := hackpadfs.Chmod(newMount, copyPath, oldInfo.Mode()); err != nil {
+			_ = newFile.Close()
 			_ = hackpadfs.Remove(newMount, copyPath)
 			return err
 		}
 	}
-	if newInfo, err := hackpadfs.Stat(newMount, newSubPath); err == nil && newInfo.Mode() != oldInfo.Mode() {
-		// the destination existed before: a renamed file keeps its own mode, not the replaced file's
-		if err := hackpadfs.Chmod(newMount, newSubPath, oldInfo.Mode()); err != nil {
+	if replacing {
+		if err := hackpadfs.Rename(newMount, copyPath, newSubPath); err != nil {
+			_ = hackpadfs.Remove(newMount, copyPath)
 			return err
 		}
 	}
